@@ -130,11 +130,35 @@ func (a *assumption) atom(env argEnv, depth int) func(ast.Expr) (bool, bool) {
 		e = ast.Unparen(e)
 		switch x := e.(type) {
 		case *ast.Ident:
+			if v, isC := boolConst(a.info, x); isC {
+				return v, true
+			}
 			if v, ok := a.bools[objOf(a.info, x)]; ok {
 				return v, true
 			}
 			if r := a.resolve(x, env, depth); r != ast.Expr(x) {
 				return ring.EvalUnder(r, a.atom(nil, depth+1))
+			}
+			// a verdict local assigned in several places: whatever way was taken, it holds
+			// one of the assigned values; when they all come out the same, that is its value
+			if o := objOf(a.info, x); o != nil && env == nil {
+				if vals, ok := boolDefs(a.info, a.body, o); ok && len(vals) > 0 {
+					all, first := true, false
+					for i, d := range vals {
+						v, known := false, true // nil: declared with its zero value
+						if d != nil {
+							v, known = ring.EvalUnder(d, a.atom(nil, depth+1))
+						}
+						if !known || i > 0 && v != first {
+							all = false
+							break
+						}
+						first = v
+					}
+					if all {
+						return first, true
+					}
+				}
 			}
 		case *ast.BinaryExpr:
 			l, ok1 := a.intOf(x.X, env, 0)
@@ -184,7 +208,11 @@ func (a *assumption) atom(env argEnv, depth int) func(ast.Expr) (bool, bool) {
 // is decided by the assumption (so the path is really taken under it).
 func (a *assumption) decidedPath(g *cfgq.Graph, target func(ast.Node) bool, avoid func(ast.Node) bool) []string {
 	at := a.atom(nil, 0)
-	return g.Path(cfgq.Query{From: g.Entry(), Target: target, Avoid: avoid, AvoidEdge: func(b *cfg.Block, s int) bool {
+	arms := a.typeArms(g)
+	return g.Path(cfgq.Query{From: g.Entry(), Target: target, Avoid: avoid, Assume: a.facts(g), AvoidEdge: func(b *cfg.Block, s int) bool {
+		if arms(b, s) {
+			return true
+		}
 		cnd := cfgq.CondOf(b)
 		if cnd == nil || len(b.Succs) != 2 {
 			return false
@@ -195,11 +223,298 @@ func (a *assumption) decidedPath(g *cfgq.Graph, target func(ast.Node) bool, avoi
 }
 
 // unreachableUnder: no path from the entry to target survives the assumption.
+// The assumption is also handed to the path search as facts about the
+// conditions it decides, so that a verdict computed into a boolean local
+// (`run = known && len(argv) != 0; if !run { return }`) is followed.
 func (a *assumption) unreachableUnder(g *cfgq.Graph, target cfgq.Point) (bool, []string) {
 	tn := target.Node()
-	w := g.Path(cfgq.Query{From: g.Entry(), Target: func(n ast.Node) bool { return n == tn },
-		AvoidEdge: ring.Infeasible(a.info, a.atom(nil, 0))})
-	return w == nil, w
+	inf := ring.Infeasible(a.info, a.atom(nil, 0))
+	arms := a.typeArms(g)
+	avoid := func(b *cfg.Block, s int) bool { return arms(b, s) || inf(b, s) }
+	w := g.Path(cfgq.Query{From: g.Entry(), Target: func(n ast.Node) bool { return n == tn }, Assume: a.facts(g), AvoidEdge: avoid})
+	if w == nil {
+		return true, nil
+	}
+	// a boolean the assumption fixes may be assigned inside the function (the comma-ok
+	// flag of a lookup): assume it from the point where it is bound, provided every
+	// way to the target passes that point
+	for o, val := range a.bools {
+		def := boundAt(a.info, a.body, o)
+		if def == nil {
+			continue
+		}
+		dp, ok := g.Find(def)
+		if !ok {
+			continue
+		}
+		if dom, _ := g.Dominated(target, func(n ast.Node) bool { return n == dp.Node() }); !dom {
+			continue
+		}
+		var seed []cfgq.Fact
+		ast.Inspect(a.body, func(n ast.Node) bool {
+			if id, isId := n.(*ast.Ident); isId && a.info.Uses[id] == o && len(seed) == 0 {
+				seed = append(seed, cfgq.Fact{Expr: id, Val: val})
+			}
+			return true
+		})
+		if len(seed) == 0 {
+			continue
+		}
+		w2 := g.Path(cfgq.Query{From: dp, After: true, Target: func(n ast.Node) bool { return n == tn }, Assume: append(seed, a.facts(g)...), AvoidEdge: avoid})
+		if w2 == nil {
+			return true, nil
+		}
+	}
+	return false, w
+}
+
+// boolDefs lists the values assigned to the boolean local o (nil = its zero-value
+// declaration); ok is false when o is written in a way that is not a plain
+// assignment, is a parameter / named result, or has its address taken.
+func boolDefs(info *types.Info, body ast.Node, o types.Object) (vals []ast.Expr, ok bool) {
+	v, isVar := o.(*types.Var)
+	if !isVar || v.IsField() || body == nil || v.Pos() < body.Pos() || v.Pos() > body.End() {
+		return nil, false
+	}
+	if b, isB := v.Type().Underlying().(*types.Basic); !isB || b.Info()&types.IsBoolean == 0 {
+		return nil, false
+	}
+	ok = true
+	ast.Inspect(body, func(n ast.Node) bool {
+		switch s := n.(type) {
+		case *ast.AssignStmt:
+			for i, l := range s.Lhs {
+				if objOf(info, l) != o {
+					continue
+				}
+				if r := core.AssignedTo(s, i); r != nil && (s.Tok == token.ASSIGN || s.Tok == token.DEFINE) {
+					vals = append(vals, r)
+				} else {
+					ok = false
+				}
+			}
+		case *ast.ValueSpec:
+			for i, nm := range s.Names {
+				if info.Defs[nm] == o {
+					switch {
+					case len(s.Values) == 0:
+						vals = append(vals, nil)
+					case len(s.Values) == len(s.Names):
+						vals = append(vals, s.Values[i])
+					default:
+						ok = false
+					}
+				}
+			}
+		case *ast.UnaryExpr:
+			if s.Op == token.AND && objOf(info, s.X) == o {
+				ok = false
+			}
+		case *ast.RangeStmt:
+			if s.Key != nil && objOf(info, s.Key) == o || s.Value != nil && objOf(info, s.Value) == o {
+				ok = false
+			}
+		}
+		return true
+	})
+	return vals, ok
+}
+
+// boundAt: the statement that gives the local o its only value (`x, o := m[k]`).
+func boundAt(info *types.Info, body ast.Node, o types.Object) ast.Node {
+	var def ast.Node
+	n := 0
+	ast.Inspect(body, func(m ast.Node) bool {
+		if as, ok := m.(*ast.AssignStmt); ok {
+			for _, l := range as.Lhs {
+				if objOf(info, l) == o && o != nil {
+					def = as
+					n++
+				}
+			}
+		}
+		return true
+	})
+	if n != 1 {
+		return nil
+	}
+	return def
+}
+
+// facts: the comparisons of the body that the assumption decides, as facts for
+// the path search (it drops a fact when a variable it mentions is assigned).
+func (a *assumption) facts(g *cfgq.Graph) []cfgq.Fact {
+	at := a.atom(nil, 0)
+	var out []cfgq.Fact
+	ast.Inspect(a.body, func(n ast.Node) bool {
+		be, ok := n.(*ast.BinaryExpr)
+		if !ok {
+			return true
+		}
+		switch be.Op {
+		case token.EQL, token.NEQ, token.LSS, token.LEQ, token.GTR, token.GEQ:
+			// only facts about lengths of things nobody assigns in this function (parameters, configuration)
+			if mentionsLocalDef(a.info, a.body, be) {
+				return true
+			}
+			if v, known := at(be); known {
+				out = append(out, cfgq.Fact{Expr: be, Val: v})
+			}
+		}
+		return true
+	})
+	return out
+}
+
+// mentionsLocalDef: e mentions a local variable that is assigned somewhere in body.
+func mentionsLocalDef(info *types.Info, body ast.Node, e ast.Expr) bool {
+	hit := false
+	ast.Inspect(e, func(n ast.Node) bool {
+		id, ok := n.(*ast.Ident)
+		if !ok {
+			return true
+		}
+		v, isVar := info.Uses[id].(*types.Var)
+		if !isVar || v.IsField() || v.Pkg() == nil || v.Parent() == v.Pkg().Scope() {
+			return true
+		}
+		ast.Inspect(body, func(m ast.Node) bool {
+			switch s := m.(type) {
+			case *ast.AssignStmt:
+				for _, l := range s.Lhs {
+					if objOf(info, l) == types.Object(v) {
+						hit = true
+					}
+				}
+			case *ast.IncDecStmt:
+				if objOf(info, s.X) == types.Object(v) {
+					hit = true
+				}
+			case *ast.RangeStmt:
+				if s.Key != nil && objOf(info, s.Key) == types.Object(v) || s.Value != nil && objOf(info, s.Value) == types.Object(v) {
+					hit = true
+				}
+			}
+			return true
+		})
+		return true
+	})
+	return hit
+}
+
+// typeArms prunes the arms of a type switch over the result of a same-package
+// helper (`switch pick(a, b).(type) { case T1: ... default: ... }`) when, under
+// the assumption, every return of the helper that can be reached yields one
+// concrete type: the arms for other types are not taken.
+func (a *assumption) typeArms(g *cfgq.Graph) func(b *cfg.Block, s int) bool {
+	type armInfo struct {
+		ts  *ast.TypeSwitchStmt
+		dyn types.Type
+	}
+	arms := map[*ast.CaseClause]armInfo{}
+	ast.Inspect(a.body, func(n ast.Node) bool {
+		ts, ok := n.(*ast.TypeSwitchStmt)
+		if !ok {
+			return true
+		}
+		var x ast.Expr
+		switch as := ts.Assign.(type) {
+		case *ast.ExprStmt:
+			x = as.X
+		case *ast.AssignStmt:
+			if len(as.Rhs) == 1 {
+				x = as.Rhs[0]
+			}
+		}
+		ta, isTA := ast.Unparen(orNilExpr(x)).(*ast.TypeAssertExpr)
+		if !isTA || ta.Type != nil {
+			return true
+		}
+		dyn := a.dynType(ta.X)
+		if dyn == nil {
+			return true
+		}
+		for _, cl := range ts.Body.List {
+			if cc, ok := cl.(*ast.CaseClause); ok {
+				arms[cc] = armInfo{ts, dyn}
+			}
+		}
+		return true
+	})
+	lists := func(cc *ast.CaseClause, t types.Type) bool {
+		for _, e := range cc.List {
+			if tv, ok := a.info.Types[e]; ok && tv.IsType() && types.Identical(tv.Type, t) {
+				return true
+			}
+		}
+		return false
+	}
+	return func(b *cfg.Block, s int) bool {
+		if len(arms) == 0 || s >= len(b.Succs) {
+			return false
+		}
+		succ := b.Succs[s]
+		cc, ok := succ.Stmt.(*ast.CaseClause)
+		ai, tracked := arms[cc]
+		if !ok || !tracked {
+			return false
+		}
+		switch succ.Kind {
+		case cfg.KindSwitchCaseBody:
+			if cc.List != nil {
+				return !lists(cc, ai.dyn)
+			}
+			for _, cl := range ai.ts.Body.List { // default: not taken when another arm names the type
+				if oc, ok := cl.(*ast.CaseClause); ok && oc.List != nil && lists(oc, ai.dyn) {
+					return true
+				}
+			}
+		case cfg.KindSwitchNextCase:
+			return len(cc.List) == 1 && lists(cc, ai.dyn) // this arm is the one taken: no falling on to the next test
+		}
+		return false
+	}
+}
+
+// dynType: e is a call of a same-package function whose reachable returns, under
+// the assumption, all hand back values of one concrete type.
+func (a *assumption) dynType(e ast.Expr) types.Type {
+	call, ok := ast.Unparen(e).(*ast.CallExpr)
+	if !ok {
+		return nil
+	}
+	f := core.CalleeFunc(a.info, call)
+	if f == nil || f.Pkg() != a.pkg {
+		return nil
+	}
+	hf := a.c.FnOf(f)
+	ps := f.Type().(*types.Signature).Params()
+	if hf == nil || hf.Decl.Body == nil || ps.Len() != len(call.Args) || f.Type().(*types.Signature).Results().Len() != 1 {
+		return nil
+	}
+	inner := argEnv{}
+	for i := 0; i < ps.Len(); i++ {
+		inner[ps.At(i)] = a.resolve(call.Args[i], nil, 0)
+	}
+	hg := cfgq.Of(a.c.Program, hf)
+	inf := ring.Infeasible(a.info, a.atom(inner, 1))
+	var dyn types.Type
+	for _, p := range hg.Points(func(n ast.Node) bool { _, ok := n.(*ast.ReturnStmt); return ok }) {
+		r := p.Node().(*ast.ReturnStmt)
+		tn := p.Node()
+		if hg.Path(cfgq.Query{From: hg.Entry(), Target: func(n ast.Node) bool { return n == tn }, AvoidEdge: inf}) == nil {
+			continue // not reached under the assumption
+		}
+		if len(r.Results) != 1 {
+			return nil
+		}
+		t := a.info.TypeOf(r.Results[0])
+		if t == nil || types.IsInterface(t) || dyn != nil && !types.Identical(dyn, t) {
+			return nil
+		}
+		dyn = t
+	}
+	return dyn
 }
 
 // builtFrom: which slice are the elements of e taken from, one by one and in
